@@ -199,3 +199,18 @@ MUTANTS["C13"] = [
     ("lookup-start-not-recorded", [(SG, "            self.lookup[index_i] = grid_index # Which grid cell is the path start in?", "            self.lookup[index_i] = x_bin # Which grid cell is the path start in?")]),
     ("extent-ignores-ends-when-reverse", [(SG, "            if reverse:\n                self.xmin = min(self.xmin, x_2)\n                xmax = max(xmax, x_2)", "            if reverse:\n                self.xmin = min(self.xmin, x_2)\n                xmax = max(xmax, x_1)")]),
 ]
+
+E3S = "plotink/ebb3_serial.py"
+ELS = "plotink/ebb_serial.py"
+MUTANTS["C19"] = [
+    # tried and equivalent (no alarm, correctly): reported name keeps a trailing blank; first SER= test disabled
+    # (the duplicated test after the no-op replace() still matches).
+    ("legacy-second-pass-first", [(ELS, "        if port[1].startswith(\"EiBotBoard\"):\n            ebb_port = port[0]  # Success; EBB found by name match.\n            break  # stop searching-- we are done.\n    if ebb_port is None:", "        if port[2].startswith(\"USB VID:PID=04D8:FD92\"):\n            ebb_port = port[0]  # Success; EBB found by name match.\n            break  # stop searching-- we are done.\n    if ebb_port is None:")]),
+    ("legacy-slice-10", [(ELS, "            p_1 = p_1[11:]\n            if p_1.startswith(plower):", "            p_1 = p_1[10:]\n            if p_1.startswith(plower):")]),
+    ("ebb3-lower-dropped", [(E3S, "    needle = needle.lower()\n    needle2 = needle2.lower()\n    plower = port_name.lower()", "    needle2 = needle2.lower()\n    plower = port_name.lower()")]),
+    ("ebb3-first-break-removed", [(E3S, "            if port[1].startswith(\"EiBotBoard\"):\n                ebb_port = port[0]  # Success; EBB found by name match.\n                break               # stop searching-- we are done.", "            if port[1].startswith(\"EiBotBoard\"):\n                ebb_port = port[0]  # Success; EBB found by name match.")]),
+    ("legacy-listing-name-only", [(ELS, "        elif port[2].startswith(\"USB VID:PID=04D8:FD92\"):\n            port_has_ebb = True\n        if port_has_ebb:\n            ebb_ports_list.append(port)\n    if ebb_ports_list:\n        return ebb_ports_list\n    return None\n\n\ndef list_named_ebbs", "        if port_has_ebb:\n            ebb_ports_list.append(port)\n    if ebb_ports_list:\n        return ebb_ports_list\n    return None\n\n\ndef list_named_ebbs")]),
+    ("ebb3-listing-in-not-startswith", [(E3S, "        elif port[2].startswith(\"USB VID:PID=04D8:FD92\"):\n            port_has_ebb = True", "        elif \"USB VID:PID=04D8:FD92\" in port[2]:\n            port_has_ebb = True")]),
+    ("ebb3-device-match-case-sensitive", [(E3S, "        p_0 = port[0].lower()\n        p_1 = port[1].lower()\n        p_2 = port[2].lower()\n\n        if (needle in p_2) or (needle2 in p_1):", "        p_0 = port[0]\n        p_1 = port[1].lower()\n        p_2 = port[2].lower()\n\n        if (needle in p_2) or (needle2 in p_1):")]),
+    ("ebb3-find-first-vidpid-lowercase", [(E3S, "                if port[2].startswith(\"USB VID:PID=04D8:FD92\"):\n                    ebb_port = port[0]  # Success; EBB found by VID/PID match.", "                if port[2].upper().startswith(\"USB VID:PID=04D8:FD92\"):\n                    ebb_port = port[0]  # Success; EBB found by VID/PID match.")]),
+]
